@@ -20,7 +20,7 @@ DOMAIN = "inputs are in the writer's documented domain (ascending keys, NUL-free
 BOUNDED = "Shows absence of counterexamples only within the explored cases; nothing is proved."
 
 C("C01", "TestC01", P(3000), P(20000, 16, 1500),
-  rule="rapid-generated (config, limits, sorted refs, sorted logs); written with Writer, read back with a full scan through ByteBlockSource or a file; "
+  rule="rapid-generated (config, limits, sorted refs, sorted logs; names with shared stems, multi-byte UTF-8 and 0x01/0x7f/0xff bytes, lengths up to 3000; update-index deltas around the varint size boundaries; a rare 'bulk' shape of 65534..70000 tiny records in one block to pass the 65535-restart cap); written with Writer, read back with a full scan through ByteBlockSource or a file; "
        "non-trivial = >=2 records and (more than one block, or a deletion record, or a log section); distinct = hash of the case JSON",
   technique="property-based testing (rapid): write/read round-trip against the generated record lists",
   level_text="Generated-input search: thousands of generated tables over all configuration fields are written and scanned back; exact equality with the generated records (every field, order, count). " + BOUNDED,
@@ -79,7 +79,7 @@ C("C09", "TestC09", P(800), P(5000, 16, 1500),
   rule="rapid-generated sequential histories over 2..4 handles on one directory (Add, NewAddition+Add*+Commit, CompactAll, AutoCompact, Clean, reopen; auto-compaction per handle); "
        "staleness is computed by the harness from Stack.String() vs tables.list; oracle per step: stale Add/NewAddition => ErrLockFailure and directory (file names + list bytes) unchanged; "
        "after a failed Add UpToDate()==true, NextUpdateIndex() > every committed index, refreshed view == model, immediate retry == nil; stale CompactAll/AutoCompact/Clean change nothing; "
-       "fresh handles never fail; every handle always shows the committed state it last loaded; "
+       "fresh handles never fail; every handle always shows the committed state it last loaded; compactions of arbitrary contiguous ranges make handles stale below the top table; "
        "non-trivial = at least one write attempted through a stale handle; distinct = hash of the case JSON",
   technique="stateful property-based testing (rapid): multi-handle sequential histories vs. reference model and directory snapshots",
   level_text="Generated sequential histories with several handles; every write through a stale handle must fail without side effects and the retry must succeed. " + BOUNDED,
@@ -154,7 +154,7 @@ C("C08", "TestC08", P(3000), P(8000, 16, 2400), pkg="conc", flavour="inst",
   exhaustive_part="thorough tier: the C04 pre-emption enumerations re-run with the M8 monitor")
 
 C("C10", "TestC10", P(3000), P(8000, 16, 2400), pkg="conc", flavour="inst",
-  rule="engine of C04 with a reading/reloading process (Open, Read, Add, AutoCompact) and 1..3 writers (Add, CompactAll, AutoCompact, multi-table Addition, expiry); windowed schedules biased to pre-empt the reader inside its open/reload; "
+  rule="engine of C04 with a reading/reloading process (Open, Read, Add, AutoCompact) and 1..3 writers (Add, CompactAll, range compactions, AutoCompact, multi-table Addition, expiry); windowed schedules biased to pre-empt the reader inside its open/reload; a 'reload churn' family (a reloader whose every Add is stale against one writer alternating partial compactions and additions, under segment / operation-aligned schedules with pre-emptions); a fixed slice of 192 enumerated single pre-emption schedules; "
        "oracle M10 after every completed call of every handle: a full scan through Merged() succeeds, Stack.String() names exactly one version of tables.list, the scan equals that version's state decoded from disk by specdec, and the version never decreases; "
        "non-trivial = a table named in a process's last read of the list was unlinked by another process, or a handle read after tables it holds were deleted; distinct = hash of the case JSON",
   technique="property-based testing over schedules: snapshot-consistency monitor against the history of list versions decoded independently",
@@ -164,8 +164,8 @@ C("C10", "TestC10", P(3000), P(8000, 16, 2400), pkg="conc", flavour="inst",
   exhaustive_part="thorough tier: the C04 pre-emption enumerations (incl. Open vs. CompactAll / Add-with-auto-compaction) re-run with the M10 monitor")
 
 C("C16", "TestC16", P(3000), P(8000, 16, 2400), pkg="conc", flavour="inst",
-  rule="engine of C04 with 1..4 processes whose programs include deliberately failing operations (Add with an invalid ref name, Add with limits below the next update index, abandoned Additions, Adds through stale handles, compactions that lose lock races, Close/Clean on empty stacks); "
-       "second family (1/3 of the multi-process cases): process 0 is killed at a drawn filesystem call and a survivor ends with Clean and Close (M5 keeps running: no listed table may disappear; Clean may only fail with ErrLockFailure; no panic); "
+  rule="a fixed slice of 192 enumerated single pre-emption schedules, then the engine of C04 with 1..4 processes whose programs include deliberately failing operations (Add with an invalid ref name, Add with limits below the next update index, abandoned Additions, Adds through stale handles, compactions that lose lock races, Close/Clean on empty stacks); "
+       "a 'cancelling transactions' family (three names, half deletions, no unique ref) so that compaction results and whole stacks become empty; second family (1/3 of the multi-process cases): process 0 is killed at a drawn filesystem call and a survivor ends with Clean and Close (M5 keeps running: no listed table may disappear; Clean may only fail with ErrLockFailure; no panic); "
        "oracle M16: when a call returns, no lock or temporary file created by that handle exists; when all processes are done and none was killed the directory is exactly tables.list + the tables it names; "
        "non-trivial = a case with a failed operation or a lost lock race; distinct = hash of the case JSON",
   technique="property-based testing over schedules and failure paths: creator-tracking monitor on the filesystem-call trace, directory audit at every idle point",
@@ -196,7 +196,7 @@ C("C19", "TestC19", P(300, timeout=900), P(1500, 16, 2400), race=True,
 
 C("C18", "TestC18", P(20000, timeout=900), P(100000, 16, 3000), fuzz={"target": "FuzzReader", "pkg": "checks", "seconds": 300},
   rule="rapid-generated small valid tables of every layout, damaged by 1..4 edits: bit flips, byte sets (hostile constants), truncations, splices from a second table, byte insertions, and overwrites of structural fields located with specdec "
-       "(version, block size, hash id, block type/length, first records, restart counts/offsets, footer offsets) with 1/2/3/8-byte hostile words; the footer copy and CRC are repaired in 5/6 of the cases so that the block decoders are reached; "
+       "(version, block size, hash id, block type/length, first records, restart counts/offsets, footer offsets) with 1/2/3/8-byte hostile words, and 'redirects' (the position varint of an index entry or object record rewritten to the offset of another or the same block, same encoded length: cycles and type confusion in the index descent); the footer copy and CRC are repaired in 5/6 of the cases so that the block decoders are reached; "
        "target: NewReader, full scans, SeekRef/SeekLog/RefsFor for original and foreign keys, the same through one- and two-table NewMerged; "
        "oracle: every call returns records or an error - a panic, an iterator yielding more records than the file has bytes, more than 64 MiB allocated for a KiB-sized file, or no return within 60 s is a violation; "
        "thorough additionally runs the native coverage-guided fuzzer on the same oracle; non-trivial = the damaged file still opens; distinct = hash of the case JSON",
